@@ -799,14 +799,21 @@ def run_cond_fault(spec, acc):
         flags = {'g': False}
         gate = stm.Condition(lambda: flags['g'])
         other = stm.Condition(lambda: False)
+        # half of the cases: the gate is a FlowVar (a value assignment releases)
+        use_flow = rng.random() < 0.5
+        fv = stm.FlowVar()
         tcs = [clk.TempoClock(rng.choice([1, 2, 4])) for _ in range(rng.randint(1, 2))]
         log = []
 
         def mk(k):
             def body():
                 log.append(('wbegin', k))
-                yield from gate.wait()
-                log.append(('gate', k))
+                if use_flow:
+                    v = yield from fv.value
+                    log.append(('gate', k, v))
+                else:
+                    yield from gate.wait()
+                    log.append(('gate', k, None))
                 yield from other.wait()
                 log.append(('other', k))
             return stm.Routine(body)
@@ -838,7 +845,11 @@ def run_cond_fault(spec, acc):
         def release(how):
             flags['g'] = True
             try:
-                getattr(gate, how)()
+                if use_flow:
+                    how = 'assign'
+                    fv.value = 40 + len(attempts)    # only the first one binds
+                else:
+                    getattr(gate, how)()
                 attempts.append((how, None))
             except Exception as e:      # noqa
                 attempts.append((how, type(e).__name__))
@@ -853,6 +864,12 @@ def run_cond_fault(spec, acc):
                     return Function(f)
                 clk.SystemClock.sched(0, from_task(how))
             time.sleep(rng.choice([0.01, 0.03]))
+        if use_flow:
+            # a late reader gets the value that was bound, at once
+            def late():
+                v = yield from fv.value
+                log.append(('late', v))
+            stm.Routine(late).play(clk.SystemClock)
         time.sleep(0.12)
         with main._main_lock:
             got = list(log)
@@ -871,8 +888,23 @@ def run_cond_fault(spec, acc):
              'attempts': attempts, 'log': got}
         tag = 'after-failed-release' if failed else 'plain'
         first_bad = min([k for k in range(n) if where[k] in stopped], default=n)
+        if use_flow:
+            acc.count('fault_cases_flowvar')
+            vals = [e[2] for e in got if e[0] == 'gate'] + [e[1] for e in got if e[0] == 'late']
+            late_seen = [e for e in got if e[0] == 'late']
+            rebinds = [a for a in attempts[1:] if a[1] is None]
+            what = None
+            if any(v != 40 for v in vals):
+                what = 'waiter-resumed-with-a-value-that-was-not-assigned-first'
+            elif rebinds:
+                what = 'rebind-accepted'
+            elif not late_seen:
+                what = 'late-reader-hangs-although-bound'
+            if what:
+                acc.violation(f'C11/flowvar/{what}/{tag}', dict(w, values=repr(vals)[:200]))
+                continue
         for k in range(n):
-            ng = got.count(('gate', k))
+            ng = sum(1 for e in got if e[0] == 'gate' and e[1] == k)
             acc.count('fault_waiters_checked')
             if ('other', k) in got:
                 acc.violation(f'C11/waiter-resumed-before-condition-holds/{tag}',
